@@ -149,6 +149,43 @@ def run(ctx):
                                    'signature': 'schema-check-failed:' + classify_exception(e)})
         lines.append(dumps([S('mkprop'), property_to_wire(q)]))
         pending.append(('property', pinp, False))
+    # ---- signature coverage: every function overload / operator at every base kind its parameters admit ----------------
+    from sigfam import signature_family
+    from gen import DEFAULT_SCHEMA
+    from raw import build_api
+    from hpl.ast.predicates import predicate_from_expression
+    ddesc = SC.from_gen_schema(DEFAULT_SCHEMA)
+    dtok = SC.to_token(ddesc)
+    stats['signature_cases'] = 0
+    for r, what in signature_family():
+        stats['signature_cases'] += 1
+        try:
+            txt = render(r, None, 'min')
+            route, f = 'parse_predicate', (lambda: prp.parse('{' + txt + '}'))
+        except AssertionError:
+            txt = repr(r)[:300]
+            route, f = 'constructors', (lambda: predicate_from_expression(build_api(r)))
+        inp = {'predicate': txt, 'signature_case': what, 'schema': 'generator default schema'}
+        distinct.add(txt)
+        try:
+            p = f()
+        except Exception as e:
+            violations.append({'input': inp, 'entry': route, 'raised': classify_exception(e), 'message': str(e)[:300],
+                               'what': f'{route} rejected a well-typed application ({what})', 'signature': 'rejected:signature:' + what.split('(')[0]})
+            continue
+        bad = []
+        declared_ok(p, ddesc, {'A': ddesc}, bad)
+        if bad:
+            violations.append({'input': inp, 'entry': route, 'problems': bad[:3],
+                               'what': f'a reference loses its declared type under {what}', 'signature': 'declared-type-missing:' + what.split('(')[0]})
+        try:
+            p.type_check_references(dtok, {'A': dtok})
+        except Exception as e:
+            violations.append({'input': inp, 'entry': route, 'raised': classify_exception(e), 'message': str(e)[:300],
+                               'what': f'a well-typed application ({what}) fails type_check_references', 'signature': 'schema-check-failed:signature:' + what.split('(')[0]})
+        if route == 'parse_predicate':
+            lines.append(dumps([S('mkpred'), to_wire(r)]))
+            pending.append(('signature case', inp, False))
     if ctx.driver is not None:
         ans = ctx.driver.run_parallel(lines)
         for (kind, inp, reuse), a in zip(pending, ans):
